@@ -292,6 +292,14 @@ theorem decodeHuff_I {inp : Array UInt8} {code : Code} {c : Ctx} (hle : c.inPos 
     (h.elim Or.inl fun hs => Or.inr ⟨c.r.numBits, Nat.le_refl _, Or.inr hs, by omega⟩)
   exact ⟨h1, this.1, this.2.1, this.2.2⟩
 
+/-- every distance symbol: base ≥ 1 and base + 2^extra − 1 ≤ 32768 -/
+theorem distBase_range (d : Nat) (h : d ≤ 29) :
+    1 ≤ (distBaseExtra d).1 ∧ (distBaseExtra d).1 + 2 ^ (distBaseExtra d).2 ≤ 32769 := by
+  have : ∀ d, d < 30 → (decide (1 ≤ (distBaseExtra d).1 ∧ (distBaseExtra d).1 + 2 ^ (distBaseExtra d).2 ≤ 32769)) = true := by
+    decide
+  have := this d (by omega)
+  simpa using this
+
 /-! ### The invariant -/
 
 def HungryBits (c : Ctx) : Prop :=
@@ -310,10 +318,14 @@ def Doomed (c : Ctx) : Prop :=
 /-- after an unassigned code-length code: the pending 7-bit read removes the older bits -/
 def Pend7 (c : Ctx) : Prop :=
   c.r.state = sReadExtraBitsCodeSize ∧ c.r.numExtra = 7 ∧ c.r.numBits < 15
-/-- states that read whole bytes straight from the input have an empty bit buffer -/
+/-- between the distance symbol and the end of the match copy, `dist` holds a DEFLATE distance -/
+def DI (c : Ctx) : Prop :=
+  (c.r.state = sReadExtraBitsDistance → 1 ≤ c.r.dist ∧ c.r.dist + 2 ^ c.r.numExtra ≤ 32769) ∧
+  ((c.r.state = sHuffDecodeOuterLoop2 ∨ c.r.state = sWriteLenBytesToEnd) → 1 ≤ c.r.dist ∧ c.r.dist ≤ 32768)
+/-- states that read whole bytes straight from the input have an empty bit buffer (and `DI`) -/
 def Z (c : Ctx) : Prop :=
   ((c.r.state = sReadZlibCmf ∨ c.r.state = sReadZlibFlg ∨ c.r.state = sRawMemcpy2) → c.r.numBits = 0) ∧
-  (c.r.state = sRawMemcpy1 → c.r.counter = 0 ∨ c.r.numBits = 0)
+  (c.r.state = sRawMemcpy1 → c.r.counter = 0 ∨ c.r.numBits = 0) ∧ DI c
 
 /-- The buffer discipline (it does not mention the cursors, so it holds across calls as it stands). -/
 def I (c : Ctx) : Prop := BC c ∧ Z c ∧ (Q c ∨ Hungry c ∨ Doomed c ∨ Pend7 c)
@@ -324,26 +336,38 @@ theorem Bnd.toI {r : Regs} (h : Bnd r) (i p : Nat) : I ⟨r, i, p⟩ := h
 
 theorem Z_of {c : Ctx} {s : Nat} (hs : c.r.state = s)
     (h1 : (s = sReadZlibCmf ∨ s = sReadZlibFlg ∨ s = sRawMemcpy2) → c.r.numBits = 0)
-    (h2 : s = sRawMemcpy1 → c.r.counter = 0 ∨ c.r.numBits = 0) : Z c := by
-  unfold Z; rw [hs]; exact ⟨h1, h2⟩
+    (h2 : s = sRawMemcpy1 → c.r.counter = 0 ∨ c.r.numBits = 0)
+    (hd : s ≠ sReadExtraBitsDistance ∧ s ≠ sHuffDecodeOuterLoop2 ∧ s ≠ sWriteLenBytesToEnd := by decide) : Z c := by
+  unfold Z DI; rw [hs]
+  exact ⟨h1, h2, fun h => absurd h hd.1, fun h => h.elim (fun h => absurd h hd.2.1) (fun h => absurd h hd.2.2)⟩
+
+/-- the three states in which `dist` is a distance -/
+theorem Z_dist {c : Ctx} {s : Nat} (hs : c.r.state = s)
+    (h0 : s = sReadExtraBitsDistance ∨ s = sHuffDecodeOuterLoop2 ∨ s = sWriteLenBytesToEnd)
+    (h3 : s = sReadExtraBitsDistance → 1 ≤ c.r.dist ∧ c.r.dist + 2 ^ c.r.numExtra ≤ 32769)
+    (h4 : (s = sHuffDecodeOuterLoop2 ∨ s = sWriteLenBytesToEnd) → 1 ≤ c.r.dist ∧ c.r.dist ≤ 32768) : Z c := by
+  unfold Z DI; rw [hs]
+  refine ⟨fun h => ?_, fun h => ?_, h3, h4⟩
+  · rcases h0 with h0 | h0 | h0 <;> rcases h with h | h | h <;> (rw [h0] at h; exact absurd h (by decide))
+  · rcases h0 with h0 | h0 | h0 <;> (rw [h0] at h; exact absurd h (by decide))
 
 /-- plain states: neither a byte-reading state nor one of the exceptional ones -/
-def plain (s : Nat) : Prop := s ≠ sReadZlibCmf ∧ s ≠ sReadZlibFlg ∧ s ≠ sRawMemcpy2 ∧ s ≠ sRawMemcpy1 ∧ s ≠ sStart
+def plain (s : Nat) : Prop := (s ≠ sReadZlibCmf ∧ s ≠ sReadZlibFlg ∧ s ≠ sRawMemcpy2 ∧ s ≠ sRawMemcpy1 ∧ s ≠ sStart) ∧
+  s ≠ sReadExtraBitsDistance ∧ s ≠ sHuffDecodeOuterLoop2 ∧ s ≠ sWriteLenBytesToEnd
 instance (s : Nat) : Decidable (plain s) := by unfold plain; exact inferInstance
 
 theorem Z_plain {c : Ctx} {s : Nat} (hs : c.r.state = s) (hp : plain s) : Z c := by
-  unfold Z; rw [hs]
-  refine ⟨fun h => ?_, fun h => absurd h hp.2.2.2.1⟩
+  refine Z_of hs (fun h => ?_) (fun h => absurd h hp.1.2.2.2.1) hp.2
   rcases h with h | h | h
-  · exact absurd h hp.1
-  · exact absurd h hp.2.1
-  · exact absurd h hp.2.2.1
+  · exact absurd h hp.1.1
+  · exact absurd h hp.1.2.1
+  · exact absurd h hp.1.2.2.1
 
 /-- the discipline, in a context that has left the `Start` state (no transition leads back to it) -/
 def I' (c : Ctx) : Prop := I c ∧ c.r.state ≠ sStart
 
 theorem I_plain {c : Ctx} (s : Nat) (hs : c.r.state = s) (hp : plain s) (hB : BC c) (hQ : Q c) : I' c :=
-  ⟨⟨hB, Z_plain hs hp, Or.inl hQ⟩, by rw [hs]; exact hp.2.2.2.2⟩
+  ⟨⟨hB, Z_plain hs hp, Or.inl hQ⟩, by rw [hs]; exact hp.1.2.2.2.2⟩
 
 /-- in a state that is not exceptional the invariant is `Q` -/
 def ordinary (s : Nat) : Prop :=
@@ -383,7 +407,25 @@ theorem BC.of_read {inp : Array UInt8} {c c1 : Ctx} (h : ReadOK inp c c1) (hc : 
 
 variable {e : Env} {c : Ctx} {out : Array UInt8}
 
-/-- shape shared by the states that start with `readBits` (all of them plain states) -/
+/-- shape shared by the states that start with `readBits` -/
+theorem readBits_stepI' {s : Nat} (hs : c.r.state = s) (hz : ∀ c1, ReadOK e.inp c c1 → Z c1) (hns : s ≠ sStart)
+    (hle : c.inPos ≤ e.inp.size) (hB : BC c)
+    (amount : Nat) (hq : c.r.numBits < amount + 8) (k : Ctx → Nat → Step)
+    (hnone : ∀ c1, ReadOK e.inp c c1 → c1.r.numBits < amount → (Q c1 ∨ Hungry c1))
+    (hk : ∀ c1 v, ReadOK e.inp c c1 → BC c1 → Q c1 → v < 2 ^ amount → StepI e (k c1 v)) :
+    StepI e (match readBits e.inp amount c with
+      | (c1, none) => .fin e.eoi c1 out
+      | (c1, some v) => k c1 v) := by
+  obtain ⟨h1, h2, h3, h4⟩ := readBits_I (inp := e.inp) hle amount hB.1 hq
+  have hv := readBits_val e.inp amount c
+  generalize readBits e.inp amount c = p at *
+  obtain ⟨c1, o⟩ := p
+  cases o with
+  | none => exact ⟨⟨BC.of_read h1 hB h2, hz c1 h1, Or.inl ⟨rfl, hnone c1 h1 (h3 rfl)⟩⟩,
+      by rw [h1.state.trans hs]; exact hns⟩
+  | some v => exact hk c1 v h1 (BC.of_read h1 hB h2) (h4 v rfl) (hv v rfl)
+
+/-- the same for plain states -/
 theorem readBits_stepI {s : Nat} (hs : c.r.state = s) (hp : plain s) (hle : c.inPos ≤ e.inp.size) (hB : BC c)
     (amount : Nat) (hq : c.r.numBits < amount + 8) (k : Ctx → Nat → Step)
     (hnone : ∀ c1, ReadOK e.inp c c1 → c1.r.numBits < amount → (Q c1 ∨ Hungry c1))
@@ -397,7 +439,7 @@ theorem readBits_stepI {s : Nat} (hs : c.r.state = s) (hp : plain s) (hle : c.in
   obtain ⟨c1, o⟩ := p
   cases o with
   | none => exact ⟨⟨BC.of_read h1 hB h2, Z_plain (h1.state.trans hs) hp, Or.inl ⟨rfl, hnone c1 h1 (h3 rfl)⟩⟩,
-      by rw [h1.state.trans hs]; exact hp.2.2.2.2⟩
+      by rw [h1.state.trans hs]; exact hp.1.2.2.2.2⟩
   | some v => exact hk c1 v h1 (BC.of_read h1 hB h2) (h4 v rfl) (hv v rfl)
 
 theorem decodeHuff_stepI {s : Nat} (hs : c.r.state = s) (hp : plain s) (hle : c.inPos ≤ e.inp.size) (hB : BC c)
@@ -415,7 +457,7 @@ theorem decodeHuff_stepI {s : Nat} (hs : c.r.state = s) (hp : plain s) (hle : c.
   cases o with
   | none =>
     refine ⟨⟨BC.of_read h1 hB h2, Z_plain (h1.state.trans hs) hp, Or.inl ⟨rfl, ?_⟩⟩,
-      by rw [h1.state.trans hs]; exact hp.2.2.2.2⟩
+      by rw [h1.state.trans hs]; exact hp.1.2.2.2.2⟩
     rcases h3 rfl with h | h
     · exact Or.inl h
     · exact Or.inr (hnone c1 h1 h)
@@ -434,11 +476,15 @@ theorem initTree_I {c : Ctx} (hB : BC c) (hQ : Q c) (l d : Array Nat) : I' (init
 
 theorem stStart_I (hC : CS c.r) : StepI e (stStart e c out) := by
   unfold stStart
-  refine ⟨⟨⟨by show (0 : Nat) < 2 ^ 0; decide, hC⟩, ⟨fun _ => rfl, fun _ => Or.inl rfl⟩, Or.inl ?_⟩, ?_⟩
-  · show (0 : Nat) < 8
-    omega
-  · show (if hasFlag e.flags fParseZlib then sReadZlibCmf else sReadBlockHeader) ≠ sStart
-    split <;> decide
+  have hB0 : (0 : Nat) < 2 ^ 0 := by decide
+  have hQ0 : (0 : Nat) < 8 := by decide
+  by_cases hz : hasFlag e.flags fParseZlib = true
+  · simp only [hz, ↓reduceIte]
+    exact ⟨⟨⟨hB0, hC⟩, Z_of (s := sReadZlibCmf) rfl (fun _ => rfl) (fun h => absurd h (by decide)), Or.inl hQ0⟩,
+      by show sReadZlibCmf ≠ sStart; decide⟩
+  · simp only [hz, ↓reduceIte]
+    exact ⟨⟨⟨hB0, hC⟩, Z_of (s := sReadBlockHeader) rfl (fun _ => rfl) (fun h => absurd h (by decide)), Or.inl hQ0⟩,
+      by show sReadBlockHeader ≠ sStart; decide⟩
 
 theorem stReadZlibCmf_I (hs : c.r.state = sReadZlibCmf) (hI : I c) : StepI e (stReadZlibCmf e c out) := by
   have hz : c.r.numBits = 0 := hI.2.1.1 (Or.inl hs)
@@ -528,7 +574,7 @@ theorem stRawMemcpy1_I (hs : c.r.state = sRawMemcpy1) (hI : I c) : StepI e (stRa
   · rename_i hc
     split
     · exact ⟨⟨hI.1, hI.2.1, Or.inr ⟨hmo_ne_eoi e, Or.inl hQ⟩⟩, by rw [hs]; decide⟩
-    · have hz : c.r.numBits = 0 := (hI.2.1.2 hs).resolve_left hc
+    · have hz : c.r.numBits = 0 := (hI.2.1.2.1 hs).resolve_left hc
       exact ⟨⟨hI.1, Z_of (s := sRawMemcpy2) rfl (fun _ => hz) (fun h => absurd h (by decide)), Or.inl hQ⟩, by show sRawMemcpy2 ≠ sStart; decide⟩
 
 theorem stRawMemcpy2_I (hs : c.r.state = sRawMemcpy2) (hI : I c) : StepI e (stRawMemcpy2 e c out) := by
@@ -709,11 +755,20 @@ theorem stReadExtraBitsLitlen_I (hle : c.inPos ≤ e.inp.size) (hs : c.r.state =
 theorem stReadExtraBitsDistance_I (hle : c.inPos ≤ e.inp.size) (hs : c.r.state = sReadExtraBitsDistance) (hI : I c) :
     StepI e (stReadExtraBitsDistance e c out) := by
   unfold stReadExtraBitsDistance
-  refine readBits_stepI hs (by decide) hle hI.1 _ (hI.bits hs (Or.inr rfl)) _ ?_ fun c1 v h1 hB hQ1 _ => ?_
+  have hdi0 := hI.2.1.2.2.1 hs
+  refine readBits_stepI' hs (fun c1 h1 => Z_dist (s := sReadExtraBitsDistance) (h1.state.trans hs) (Or.inl rfl)
+      (fun _ => by rw [h1.regs]; exact hdi0) (fun h => h.elim (fun h => absurd h (by decide)) (fun h => absurd h (by decide))))
+    (by decide) hle hI.1 _ (hI.bits hs (Or.inr rfl)) _ ?_ fun c1 v h1 hB hQ1 hv => ?_
   · intro c1 h1 hlt
     refine Or.inr (Or.inl ⟨Or.inr (Or.inr (h1.state.trans hs)), ?_⟩)
     rw [h1.regs]; exact hlt
-  · exact I_plain sHuffDecodeOuterLoop2 rfl (by decide) hB hQ1
+  · have hdi := hI.2.1.2.2.1 hs
+    have hreg : c1.r.dist = c.r.dist := by rw [h1.regs]
+    refine ⟨⟨hB, Z_dist (s := sHuffDecodeOuterLoop2) rfl (Or.inr (Or.inl rfl)) (fun h => absurd h (by decide)) (fun _ => ?_), Or.inl hQ1⟩,
+      by show sHuffDecodeOuterLoop2 ≠ sStart; decide⟩
+    show 1 ≤ c1.r.dist + v ∧ c1.r.dist + v ≤ 32768
+    rw [hreg]
+    omega
 
 /-- in a Huffman-decoding state the invariant is `Q` or a hungry decode of that state's code -/
 theorem I.lit (h : I c) (hs : c.r.state = sDecodeLitlen) :
@@ -833,10 +888,19 @@ theorem stDecodeDistance_I (hle : c.inPos ≤ e.inp.size) (hs : c.r.state = sDec
     dsimp only
     split
     · exact ⟨⟨hB, Z_plain (s := sInvalidDist) rfl (by decide), Or.inr (Or.inr (Or.inl (Or.inr (by show sDoneForever < sInvalidDist; decide))))⟩, by show sInvalidDist ≠ sStart; decide⟩
-    · have hQ1 : Q c1 := hv.elim id fun h => by omega
+    · rename_i hle29
+      have hQ1 : Q c1 := hv.elim id fun h => by omega
+      have htab := distBase_range v (by omega)
       split
-      · exact I_plain sReadExtraBitsDistance rfl (by decide) hB hQ1
-      · exact I_plain sHuffDecodeOuterLoop2 rfl (by decide) hB hQ1
+      · exact ⟨⟨hB, Z_dist (s := sReadExtraBitsDistance) rfl (Or.inl rfl) (fun _ => htab) (fun h => h.elim (fun h => absurd h (by decide)) (fun h => absurd h (by decide))), Or.inl hQ1⟩,
+          by show sReadExtraBitsDistance ≠ sStart; decide⟩
+      · rename_i h0
+        have h0' : (distBaseExtra v).2 = 0 := by simpa using h0
+        refine ⟨⟨hB, Z_dist (s := sHuffDecodeOuterLoop2) rfl (Or.inr (Or.inl rfl)) (fun h => absurd h (by decide)) (fun _ => ?_), Or.inl hQ1⟩,
+          by show sHuffDecodeOuterLoop2 ≠ sStart; decide⟩
+        show 1 ≤ (distBaseExtra v).1 ∧ (distBaseExtra v).1 ≤ 32768
+        rw [h0'] at htab
+        omega
 
 theorem stMatch_I (hs : c.r.state = sHuffDecodeOuterLoop2 ∨ c.r.state = sWriteLenBytesToEnd) (hI : I c) :
     StepI e (stMatch e c out) := by
@@ -844,13 +908,16 @@ theorem stMatch_I (hs : c.r.state = sHuffDecodeOuterLoop2 ∨ c.r.state = sWrite
     rcases hs with hs | hs
     · exact hI.q hs (by decide)
     · exact hI.q hs (by decide)
+  have hdi : 1 ≤ c.r.dist ∧ c.r.dist ≤ 32768 := hI.2.1.2.2.2 hs
   unfold stMatch
   dsimp only
   (repeat' split) <;> first
     | exact I_plain sDistanceOutOfBounds rfl (by decide) hI.1 hQ
     | exact I_plain sDecodeLitlen rfl (by decide) hI.1 hQ
-    | exact I_plain sWriteLenBytesToEnd rfl (by decide) hI.1 hQ
-    | exact ⟨⟨hI.1, Z_plain (s := sWriteLenBytesToEnd) rfl (by decide), Or.inr ⟨hmo_ne_eoi e, Or.inl hQ⟩⟩, by show sWriteLenBytesToEnd ≠ sStart; decide⟩
+    | exact ⟨⟨hI.1, Z_dist (s := sWriteLenBytesToEnd) rfl (Or.inr (Or.inr rfl)) (fun h => absurd h (by decide)) (fun _ => hdi), Or.inl hQ⟩,
+        by show sWriteLenBytesToEnd ≠ sStart; decide⟩
+    | exact ⟨⟨hI.1, Z_dist (s := sWriteLenBytesToEnd) rfl (Or.inr (Or.inr rfl)) (fun h => absurd h (by decide)) (fun _ => hdi), Or.inr ⟨hmo_ne_eoi e, Or.inl hQ⟩⟩,
+        by show sWriteLenBytesToEnd ≠ sStart; decide⟩
 
 theorem stBlockDone_I (hs : c.r.state = sBlockDone) (hI : I c) : StepI e (stBlockDone e c out) := by
   have hQ := hI.q hs (by decide)
